@@ -6,6 +6,8 @@ def dispatch (line : String) : String :=
   | "tok" :: args => handleTok args
   | "parse" :: args => handleParse args
   | "toks" :: args => handleToks args
+  | "meaning" :: args => handleMeaning args
+  | "fund" :: args => handleFund args
   | _ => "bad-op"
 
 partial def loop (h : IO.FS.Stream) (out : IO.FS.Stream) : IO Unit := do
